@@ -338,7 +338,7 @@ Section Preserve.
 
     Lemma run_item_good : forall force it, good_items (fun f s => run_item C rec force f s it).
     Proof.
-      intros force it f s r s' Hwf H. destruct it as [m|sp|m alias caught|k e|k e|e| |t b|b| ]; simpl in H.
+      intros force it f s r s' Hwf H. destruct it as [m|sp|m alias caught|k e|k e|k e|e| |t b|b| ]; simpl in H.
       - (* Marker *) inversion H; subst. eapply good_simple_then; eauto using Rel_refl. apply Simple_emit. exact I.
       - (* Import *)
         destruct sp as [m alias|m its|m].
@@ -374,6 +374,11 @@ Section Preserve.
         destruct (eval C s f e); inversion H; subst.
         + eapply good_simple_then; eauto using Rel_refl. apply Simple_maybe_export.
         + split; auto. exists []. apply Rel_refl.
+      - (* AssignOp *)
+        destruct (load_id C s f k) as [lhs|]; [|inversion H; subst; split; auto; exists []; apply Rel_refl].
+        destruct (eval C s f e) as [rhs|]; [|inversion H; subst; split; auto; exists []; apply Rel_refl].
+        destruct lhs, rhs; inversion H; subst; try (split; auto; exists []; apply Rel_refl; fail).
+        eapply good_simple_then; eauto using Rel_refl. apply Simple_maybe_export.
       - (* Show *)
         destruct (eval C s f e); inversion H; subst.
         + eapply good_simple_then; eauto using Rel_refl. apply Simple_emit. exact I.
@@ -775,7 +780,7 @@ Section Exports.
     assert (Hcur : forall s1, exports s1 = exports s /\ cur_obj s1 = cur_obj s ->
                               exports s1 = exports s /\ exported s1 k = exported s k).
     { intros s1 [E1 E2]. split; auto. unfold exported. rewrite E2. reflexivity. }
-    destruct it as [m|sp|m alias caught|j e|j e|e| |t b|b| ]; simpl in H.
+    destruct it as [m|sp|m alias caught|j e|j e|j e|e| |t b|b| ]; simpl in H.
     - inversion H; subst. auto.
     - destruct sp as [m alias|m its|m].
       + destruct (import_item rec f s m false) as [[[[v f1]|e] s1]|] eqn:E; try discriminate;
@@ -798,6 +803,9 @@ Section Exports.
       destruct (eval C s f e); inversion H; subst; auto. split; auto.
       apply exported_export_value_other. congruence.
     - destruct (eval C s f e); inversion H; subst; auto.
+    - destruct (load_id C s f j) as [lhs|]; [|inversion H; subst; auto].
+      destruct (eval C s f e) as [rhs|]; [|inversion H; subst; auto].
+      destruct lhs, rhs; inversion H; subst; auto.
     - destruct (eval C s f e); inversion H; subst; auto.
     - inversion H; subst; auto.
     - inversion H; subst. split; auto. apply exported_export_test.
@@ -892,7 +900,7 @@ Section Exports.
     assert (Hcur : forall f1 s1, locals f1 = locals f -> exports s1 = exports s /\ cur_obj s1 = cur_obj s ->
                                  locals_exported f1 s1).
     { intros f1 s1 E0 [E1 E2]. apply (locals_exported_same f f1 s s1); auto. intro k. unfold exported. rewrite E2. reflexivity. }
-    destruct it as [m|sp|m alias caught|j e|j e|e| |t b|b| ]; simpl in H; simpl in Hp; try discriminate.
+    destruct it as [m|sp|m alias caught|j e|j e|j e|e| |t b|b| ]; simpl in H; simpl in Hp; try discriminate.
     - inversion H; subst. exact Hl.
     - destruct sp as [m alias|m its|m]; try discriminate.
       + destruct (import_item rec f s m false) as [[[[v f1]|e] s1]|] eqn:E; try discriminate.
@@ -905,6 +913,11 @@ Section Exports.
         apply Hcur; [eapply import_item_frame; eauto | eapply import_item_cur; eauto].
     - destruct (eval C s f e); inversion H; subst. apply locals_exported_set. auto.
     - destruct (eval C s f e); inversion H; subst. unfold maybe_export. apply locals_exported_set. auto.
+    - destruct (load_id C s f j) as [lhs|]; [|discriminate]. destruct (eval C s f e) as [rhs|]; [|discriminate].
+      destruct lhs, rhs; try discriminate. inversion H; subst. unfold maybe_export.
+      destruct (al_get j (locals f)) eqn:El.
+      + apply locals_exported_set. auto.
+      + intros k v Hk. rewrite exported_export_value_other; [apply Hl; auto|]. intros ->. congruence.
     - destruct (eval C s f e); inversion H; subst. auto.
     - inversion H; subst. apply (locals_exported_same f' f' s _); auto. intro k. apply exported_export_test.
     - inversion H; subst. apply (locals_exported_same f' f' s _); auto. intro k. apply exported_export_main.
@@ -1099,4 +1112,18 @@ Theorem T_compile_error_leaves_nothing : forall C rec f nm all s p,
 Proof.
   intros C rec f nm all s p Hnl Hfm Hch Hbr. unfold run_import. rewrite Hnl, Hfm, Hch.
   unfold file_broken in Hbr. rewrite Hbr. reflexivity.
+Qed.
+
+(* export_top_level_ids: every form of top-level assignment of the model -- plain, compound (+=), export,
+   un-aliased imports -- keeps "each top-level local is exported with the value it holds"; compound
+   assignment to an id of an earlier chunk (not a local) exports the new value *)
+Theorem T_compound_assign_exports : forall C rec k e f s f' s' a b,
+    load_id C s f k = Ok (VInt a) -> eval C s f e = Ok (VInt b) ->
+    run_item C rec true f s (AssignOp k e) = Some (Ok f', s') ->
+    exported s' k = Some (VInt (a + b)) /\
+    (al_get k (locals f) <> None -> al_get k (locals f') = Some (VInt (a + b))).
+Proof.
+  intros C rec k e f s f' s' a b Hl He H. simpl in H. rewrite Hl, He in H. inversion H; subst. split.
+  - apply exported_export_value_same.
+  - intro Hk. destruct (al_get k (locals f)); [|congruence]. simpl. apply al_get_insert_same.
 Qed.
